@@ -81,7 +81,14 @@ def generic(mod, pid, args, seed, t0):
   import inspect
   T = mod.build(repo) if inspect.signature(mod.build).parameters else mod.build()
   tmo = args.timeout or (120 if args.tier == 'thorough' else 30)
-  per_fn, canaries, wall, ex = run.verify_theory(T, repo, timeout_s=tmo)
+  try:
+    per_fn, canaries, wall, ex = run.verify_theory(T, repo, timeout_s=tmo)
+  except (ContractMisfit, Unsupported) as e:
+    # The code under contract changed shape (new loop without invariant, construct outside the
+    # subset, ...): no obligation can be generated, so nothing is proved or refuted.  The contract
+    # is still executable: run the native witness search on the real code; a failing input is a
+    # violation, otherwise the outcome stays undecided (2) / checker error (3).
+    return proof_unavailable(pid, repo, args, seed, e)
   lock = report.load_lock()
   known = report.load_known()
   obls = [o for f in per_fn for o in f['obligations']]
@@ -222,6 +229,43 @@ def generic(mod, pid, args, seed, t0):
   print('%s: %d obligations, %d discharged, %d function(s), exit %d, %.1fs' % (
       pid, len(obls), ev['coverage']['discharged'], len(fns), exit_code, time.time() - t0))
   return exit_code
+
+
+def proof_unavailable(pid, repo, args, seed, err):
+  misfit = isinstance(err, ContractMisfit)
+  line = ('UNDECIDED property=%s reason=contract-misfit: %s' % (pid, err)) if misfit else (
+      'CHECKER-ERROR property=%s unsupported construct: %s' % (pid, err))
+  native = None
+  try:
+    native = native_call(pid, repo, 'sweep', dict(tier=args.tier, seed=seed, failing=[
+        dict(name='(no obligations generated)', kind='misfit', detail=str(err), owner='')]))
+  except Exception as e:  # pylint: disable=broad-except
+    print('CHECKER-ERROR property=%s native stage: %s' % (pid, e))
+  known = report.load_known()
+  vs, known_lines = [], []
+  for w in (native or {}).get('violations', []):
+    k = match_known(known, pid, w)
+    if k:
+      known_lines.append('KNOWN-FINDING: property=%s %s' % (pid, k))
+    else:
+      vs.append(w)
+  for w in vs[:5]:
+    path = report.write_replay(pid, dict(property=pid, kind='native-witness', witness=w,
+                                         proof_status='no obligations could be generated: %s' % err))
+    print('VIOLATION property=%s replay=%s' % (pid, path))
+    print('  witness: %s' % json.dumps(w)[:600])
+  for l in known_lines:
+    print(l)
+  print(line)
+  if not vs:
+    print('  (native search found no failing input on this tree)')
+  ev = dict(property_id=pid, tier=args.tier, seed=seed, level='proof',
+            coverage=dict(obligations=0, discharged=0, checker_cmd='./check %s --tier %s' % (pid, args.tier),
+                          trusted_base=['engine/'], proof_status=line,
+                          bounded_standins=(native or {}).get('bounded', [])),
+            assumptions=[], violations=len(vs))
+  report.write_evidence(pid, ev, scratch=(repo != '/repo'))
+  return 1 if vs else (2 if misfit else 3)
 
 
 def match_known(known, pid, witness):
